@@ -6,12 +6,15 @@ import (
 	"bytes"
 	"encoding/json"
 	"fmt"
+	"math"
+	"reflect"
 	"sort"
 	"strings"
 	"testing"
 	"time"
 
 	sdk "github.com/cosmos/cosmos-sdk/types"
+	paramtypes "github.com/cosmos/cosmos-sdk/x/params/types"
 	"pgregory.net/rapid"
 
 	"github.com/jackalLabs/canine-chain/v4/x/filetree"
@@ -235,7 +238,7 @@ func c19RoundTrip(c *chain.Chain, ctx sdk.Context) (res c19Result) {
 
 func TestC19(t *testing.T) {
 	rec := ev.For("C19")
-	rec.Describe("ABCI histories (the generator of C06: providers, collateral, claimers, plans, gauges, files with provers, open attestation and report forms, names with records / listings / bids / init markers / primary names, file-tree entries and public keys, oracle feeds, notifications and block entries, several minted blocks) are executed on a real app; then the six custom modules are exported with their ExportGenesis, each section validated, a fresh app initialised from a genesis carrying those sections, and compared: sorted raw KV dump of every custom store per key prefix (source vs restored), module params, and the re-exported genesis. A second search does the same from fork-mode worlds (uncommitted state): name-service histories with height jumps around and beyond expiries (listings and bids left over), and worlds in which owners' resources of all modules are hit by 5-40 reflectively generated messages of all 45 types between block boundaries (mint and storage begin-block). Record kinds the genesis protos have no field for are listed in known_findings.json and excluded from the search comparison (counted); any other prefix that fails is a violation. Non-trivial = the source state had records under >= 8 distinct prefixes; distinct = distinct recorded histories.",
+	rec.Describe("ABCI histories (the generator of C06: providers, collateral, claimers, plans, gauges, files with provers, open attestation and report forms, names with records / listings / bids / init markers / primary names, file-tree entries and public keys, oracle feeds, notifications and block entries, several minted blocks) are executed on a real app; then the six custom modules are exported with their ExportGenesis, each section validated, a fresh app initialised from a genesis carrying those sections, and compared: sorted raw KV dump of every custom store per key prefix (source vs restored), module params, and the re-exported genesis. A second search does the same from fork-mode worlds (uncommitted state): name-service histories with height jumps around and beyond expiries (listings and bids left over), and worlds in which owners' resources of all modules are hit by 5-40 reflectively generated messages of all 45 types between block boundaries (mint and storage begin-block) and governance parameter changes (any value the per-key parameter validators accept). Record kinds the genesis protos have no field for are listed in known_findings.json and excluded from the search comparison (counted); any other prefix that fails is a violation. Non-trivial = the source state had records under >= 8 distinct prefixes; distinct = distinct recorded histories.",
 		"ActiveProviders/value/ is written by InitGenesis and read by nothing (the active-provider list is recomputed from proofs): not compared",
 		"bank/auth state is not carried over (custom InitGenesis functions do not depend on it)")
 	// ---- plain regression replay of the known omissions ----
@@ -383,6 +386,36 @@ func TestC19(t *testing.T) {
 			fillMsg(rt, m, env(), nil)
 			res := w.f.Exec(m)
 			w.logf("%s -> %s", msgSummary(m), trunc(res.String(), 60))
+			if rapid.IntRange(0, 9).Draw(rt, "governance") == 0 {
+				// a parameter-change proposal: any value the per-key validators of the parameter store accept (they are what a
+				// proposal is checked against); the exported genesis of such a state must still validate and round-trip
+				val := func(l string) int64 {
+					return rapid.SampledFrom([]int64{0, 1, 2, 5, 8, 12, 40, 80, 85, 100, 101, 200, 4_200_000, 1 << 40, math.MaxInt64}).Draw(rt, l)
+				}
+				if rapid.Bool().Draw(rt, "mintParams") {
+					mp := sc.App.MintKeeper.GetParams(w.f.Ctx)
+					mp.TokensPerBlock, mp.MintDecrease = val("tokensPerBlock"), val("mintDecrease")
+					mp.StakerRatio, mp.DevGrantsRatio, mp.StorageProviderRatio = val("stakerRatio"), val("devRatio"), val("providerRatio")
+					if pairsValid(mp.ParamSetPairs()) {
+						sc.App.MintKeeper.SetParams(w.f.Ctx, mp)
+						w.logf("governance sets mint params %d / %d / %d %d %d", mp.TokensPerBlock, mp.MintDecrease, mp.StakerRatio, mp.DevGrantsRatio, mp.StorageProviderRatio)
+						rec.Count("fork-world:governance-mint-params")
+					}
+				} else {
+					sp := w.params()
+					sp.ProofWindow, sp.CheckWindow, sp.ChunkSize, sp.MissesToBurn = val("proofWindow"), val("checkWindow"), val("chunkSize"), val("missesToBurn")
+					sp.PolRatio, sp.ReferralCommission, sp.PricePerTbPerMonth = val("polRatio"), val("referralCommission"), val("pricePerTb")
+					sp.MaxContractAgeInBlocks, sp.AttestFormSize, sp.AttestMinToPass, sp.CollateralPrice = val("maxAge"), val("formSize"), val("minToPass"), val("collateralPrice")
+					if sp.CheckWindow > 1000 {
+						sp.CheckWindow = 7 // keep reward blocks within reach of the history
+					}
+					if pairsValid(sp.ParamSetPairs()) {
+						sc.App.StorageKeeper.SetParams(w.f.Ctx, sp)
+						w.logf("governance sets storage params %+v", sp)
+						rec.Count("fork-world:governance-storage-params")
+					}
+				}
+			}
 			if rapid.IntRange(0, 5).Draw(rt, "tick") == 0 {
 				w.f.SetBlock(w.f.Height()+rapid.Int64Range(1, 120).Draw(rt, "blocks"), w.f.Time().Add(time.Duration(rapid.Int64Range(1, 100000).Draw(rt, "seconds"))*time.Second))
 				if bb := w.f.BeginCustom(true, true); bb.Panic != nil {
@@ -394,6 +427,16 @@ func TestC19(t *testing.T) {
 		rec.Count("fork-world:all-message-types")
 		judge(rt, c19RoundTrip(sc, w.f.Ctx), w.trace, "all")
 	})
+}
+
+// pairsValid runs the per-key validators of a parameter set, as the parameter store does on every write.
+func pairsValid(pairs paramtypes.ParamSetPairs) bool {
+	for _, p := range pairs {
+		if p.ValidatorFn(reflect.ValueOf(p.Value).Elem().Interface()) != nil {
+			return false
+		}
+	}
+	return true
 }
 
 func sortedKeysOf(m map[string]string) []string {
